@@ -49,11 +49,14 @@ PktIx_TD == EncIpfixMsg(HX, <<EncIpfixTmplSet(<<T9(256, FA)>>, <<>>), EncDataSet
 PktIx_D  == EncIpfixMsg(HX, <<EncDataSet(256, <<RecA(110), RecA(120)>>, <<>>)>>)
 PktIx_H  == EncIpfixMsg(HX, <<>>)
 PktIx_L  == <<0, 10, 0, 9>> \o HX.export_time \o HX.seq \o HX.domain       \* header announcing length 9 (< 16)
+PktIx_L0 == <<0, 10, 0, 0>> \o HX.export_time \o HX.seq \o HX.domain       \* header announcing length 0
+\* a last set whose length word (12) runs past the end of the message (8 of its 12 bytes are there)
+PktIx_Over == EncIpfixMsg(HX, <<EncIpfixTmplSet(<<T9(256, FA)>>, <<>>), <<1, 0, 0, 12>> \o B4(40)>>)
 Blob     == <<0, 1, 2, 3>>                                                   \* version 1: not a known version
 Tail1    == <<0>>
 
 Alphabet == << PktV5_0, PktV5_1, PktV7_1, PktV9_T, PktV9_TD, PktV9_D, PktV9_Short, PktIx_TD, PktIx_D, PktIx_H, PktIx_L, Blob, Tail1,
-              PktV9_ShortLast, PktIx_ShortSet, PktV9_CountBig, PktV9_CountSmall >>
+              PktV9_ShortLast, PktIx_ShortSet, PktV9_CountBig, PktV9_CountSmall, PktIx_L0, PktIx_Over >>
 NA == Len(Alphabet)
 
 Chains(n) == UNION {[1..k -> 1..NA] : k \in 1..n}
